@@ -367,7 +367,18 @@ func MatrixPackages() []*Package {
 				}
 				fn := fmt.Sprintf("cell_%s_%s", p.id, op.id)
 				ret := strings.ReplaceAll(op.ret, "%T", t.goT)
-				body := strings.ReplaceAll(op.body, "%E", p.expr)
+				// an assignment statement's left side is written without the parentheses the place carries for
+				// use inside expressions: goose rejects `(*q) = v` ("assigning to complex expression") although
+				// `*q = v` is supported, which hid every assignment through a pointer
+				lv := p.expr
+				if strings.HasPrefix(lv, "(*") && strings.HasSuffix(lv, ")") {
+					lv = lv[1 : len(lv)-1]
+				}
+				body := op.body
+				for _, asg := range []string{" = ", " += ", " ^= ", " -= "} {
+					body = strings.ReplaceAll("\n\t"+body, "\n\t%E"+asg, "\n\t"+lv+asg)[2:]
+				}
+				body = strings.ReplaceAll(body, "%E", p.expr)
 				body = strings.ReplaceAll(body, "%W", t.init2)
 				body = strings.ReplaceAll(body, "%t", t.id)
 				params := "a uint64"
